@@ -69,3 +69,46 @@ Proof.
   rewrite (chk_i64_some (wdu - wk * 7)) by (unfold wdu; lia). cbn [obind].
   reflexivity.
 Qed.
+
+Lemma chk_i32_some x : -2147483648 <= x <= 2147483647 -> chk i32 x = Some x.
+Proof.
+  intros H. unfold chk, in_ty, imin, imax, i32, smin, smax; cbn [sgn bits].
+  change (2 ^ (32 - 1)) with 2147483648.
+  destruct (_ && _) eqn:E; [reflexivity|lia].
+Qed.
+
+(* operator+(month, months): the one checked operation that can overflow is `ms.count() - 1` in int
+   (months::min(), as in the standard's own formula); everything else is computed in long long *)
+Theorem gen_month_plus_eq : forall m dm, 0 <= m <= 255 -> -2147483648 < dm <= 2147483647 ->
+  Gen_chrono.month_plus_g m dm = Some (month_plus_m m dm).
+Proof.
+  intros m dm Hm Hd. unfold Gen_chrono.month_plus_g, month_plus_m.
+  rewrite (chk_i32_some (dm - 1)) by lia. cbn [obind].
+  rewrite (chk_i64_some (m + (dm - 1))) by lia. cbn [obind]. cbv zeta.
+  set (mo := m + (dm - 1)) in *.
+  assert (Ht : (if mo >=? 0 then Some mo else chk i64 (mo - 11)) = Some (if mo >=? 0 then mo else mo - 11)).
+  { destruct (mo >=? 0); [reflexivity|]. apply chk_i64_some. unfold mo. lia. }
+  rewrite Ht. cbn [obind].
+  set (dv := Z.quot (if mo >=? 0 then mo else mo - 11) 12).
+  assert (Hdv : -200000000 <= dv <= 200000000) by (unfold dv, mo; destruct (m + (dm - 1) >=? 0) eqn:E; lia).
+  rewrite (chk_i64_some (dv * 12)) by lia. cbn [obind].
+  rewrite (chk_i64_some (mo - dv * 12)) by (unfold mo; lia). cbn [obind].
+  rewrite (chk_i64_some (mo - dv * 12 + 1)) by (unfold mo; lia). cbn [obind].
+  reflexivity.
+Qed.
+
+Theorem gen_month_minus_eq : forall m1 m2, Gen_chrono.month_minus_g m1 m2 = Some (month_minus_m m1 m2).
+Proof. intros m1 m2. reflexivity. Qed.
+
+Theorem gen_weekday_diff_eq : forall a b, Gen_chrono.weekday_diff_g a b = Some (weekday_diff_m a b).
+Proof.
+  intros a b. unfold Gen_chrono.weekday_diff_g, weekday_diff_m. cbv zeta.
+  change (wrap_ty i32 (wrap_ty u32 (a - b))) with (wraps 32 (u32w (a - b))).
+  set (c := wraps 32 (u32w (a - b))).
+  assert (Hc : -2147483648 <= c <= 2147483647).
+  { unfold c, wraps. change (2 ^ 32) with 4294967296. change (2 ^ (32 - 1)) with 2147483648.
+    set (r := u32w (a - b) mod 4294967296). assert (0 <= r < 4294967296) by (unfold r; lia).
+    destruct (r <? 2147483648) eqn:E; lia. }
+  destruct (c >=? 0) eqn:E; cbn [obind]; [reflexivity|].
+  rewrite (chk_i32_some (c + 7)) by lia. reflexivity.
+Qed.
